@@ -22,10 +22,22 @@ impl Prop for SizeAlign {
     }
     fn judge(&self, c: &Case) -> Outcome {
         let st = features(&c.prog, c.w);
-        let run = match run_l2(&c.prog, c.w, Which::SizeAlign) {
+        let mut run = match run_l2(&c.prog, c.w, Which::SizeAlign) {
             Ok(r) => r,
             Err(o) => return o,
         };
+        // the same description at the other pointer width, when it is valid there too (pointer-free layouts mostly)
+        let other = if c.w == 4 { 8 } else { 4 };
+        let mut both = false;
+        if run.out.probes.iter().all(|p| p.found.is_none()) && run.out.errors.is_empty() && crate::checks::c13::other_width_ok(c) {
+            if let Ok(r2) = run_l2(&c.prog, other, Which::SizeAlign) {
+                if r2.out.probes.iter().any(|p| p.found.is_some()) {
+                    run = r2;
+                } else if r2.out.errors.is_empty() {
+                    both = true;
+                }
+            }
+        }
         let bad: Vec<_> = run.out.probes.iter().filter(|p| p.found.is_some()).collect();
         if !bad.is_empty() {
             let mut d = String::new();
@@ -42,6 +54,9 @@ impl Prop for SizeAlign {
             return Outcome::discard(&format!("crate-does-not-compile (C13's business): {}", codes.join("+")));
         }
         let mut o = Outcome::pass(st.used_by_value_odd).class(&format!("width:{}", c.w));
+        if both {
+            o = o.class("both-widths");
+        }
         for (k, v) in [("enums", st.enums > 0), ("externs", st.externs > 0), ("vptr", st.vptr), ("bases", st.bases), ("cross_module", st.cross_module)] {
             if v {
                 o = o.class(k);
